@@ -121,6 +121,8 @@ type Style struct {
 	Double    bool   // redundant double parentheses around every parenthesised group
 	Sp        string // separator between tokens ("" => single space where needed)
 	Upper     int    // keyword case: 0 lower, 1 UPPER, 2 MiXed
+	Tight     bool   // no separator around binary operators and after commas
+	PrecTab   map[string]int // precedence table used to decide parentheses (nil: Prec)
 }
 
 func isAtom(e Expr) bool {
@@ -177,6 +179,21 @@ func sp(st Style) string {
 		return " "
 	}
 	return st.Sp
+}
+
+// osp is the separator around operators.
+func osp(st Style) string {
+	if st.Tight {
+		return ""
+	}
+	return sp(st)
+}
+
+func precOf(st Style, op string) int {
+	if st.PrecTab != nil {
+		return st.PrecTab[op]
+	}
+	return Prec[op]
 }
 
 func open(b *strings.Builder, st Style) {
@@ -240,11 +257,7 @@ func printExpr(b *strings.Builder, e Expr, minPrec int, right bool, st Style) {
 		for i, a := range x.Args {
 			if i > 0 {
 				b.WriteString(",")
-				if st.Sp != "" {
-					b.WriteString(st.Sp)
-				} else {
-					b.WriteString(" ")
-				}
+				b.WriteString(osp(st))
 			}
 			printExpr(b, a, 0, false, st)
 		}
@@ -259,7 +272,7 @@ func printExpr(b *strings.Builder, e Expr, minPrec int, right bool, st Style) {
 		printExpr(b, x.Sel, 0, false, st)
 		b.WriteString("]")
 	case *Bin:
-		p := Prec[x.Op]
+		p := precOf(st, x.Op)
 		need := p < minPrec || (right && p == minPrec)
 		if st.FullParen && minPrec > 0 {
 			need = true
@@ -268,9 +281,9 @@ func printExpr(b *strings.Builder, e Expr, minPrec int, right bool, st Style) {
 			open(b, st)
 		}
 		printExpr(b, x.L, p, false, st)
-		b.WriteString(sp(st))
+		b.WriteString(osp(st))
 		b.WriteString(x.Op)
-		b.WriteString(sp(st))
+		b.WriteString(osp(st))
 		printExpr(b, x.R, p, true, st)
 		if need {
 			closeP(b, st)
@@ -306,7 +319,7 @@ func PrintAction(a Action, st Style) string {
 	if a.Target == nil {
 		return Print(a.Call, st)
 	}
-	return Print(a.Target, st) + sp(st) + a.Op + sp(st) + Print(a.RHS, st)
+	return Print(a.Target, st) + osp(st) + a.Op + osp(st) + Print(a.RHS, st)
 }
 
 // PrintRule renders a rule.
